@@ -342,5 +342,9 @@ def check(ctx, rep):
             raise AnalysisError(f'no summary for {fq}')
         ob(rep, 'EFF-mutates-argument', fq, 'arguments are not written', not s.mutates, 'pure query',
            f'writes parameter index(es) {sorted(s.mutates)}', program.func(fq).loc(), 'C16d')
-    from .common import memo_rule
+    from .common import memo_rule, terminus_owner_rule, unmodified_fast_path_rule
+    terminus_owner_rule(ctx, rep, 'C16a')
+    from .common import shared_rows_rule
+    shared_rows_rule(ctx, rep, 'C16c', (SF,))
+    unmodified_fast_path_rule(ctx, rep, 'C16d', (PP, SF, 'peptacular.digestion'))
     memo_rule(ctx, rep, 'C16e', ('peptacular.sequence.sequence_funcs', 'peptacular.proforma.proforma_parser'))
